@@ -10,11 +10,13 @@ import (
 )
 
 type CaseValue struct {
-	Type string `json:"type"`
-	V    *Value `json:"v"`
+	Type string  `json:"type"`
+	V    *Value  `json:"v"`
+	Pre  []PreOp `json:"pre,omitempty"` // prior calls in the same process
 }
 
 func oracleC01(c *CaseValue) *Failure {
+	defer runPrelude(c.Pre)()
 	v := c.V
 	r := Render(v, nil)
 	if r.MustError || r.MayError {
@@ -95,8 +97,12 @@ func TestC01(t *testing.T) {
 		tn := tn
 		t.Run(tn, func(t *testing.T) {
 			CheckProp(t, "C01", "c01", tn, func(rt *rapid.T) *CaseValue {
+				pre, _ := genPrelude(rt, tn, false)
 				v, ft := GenValue(rt, tn, DefaultOpts(Canonical))
-				c := &CaseValue{Type: tn, V: v}
+				c := &CaseValue{Type: tn, V: v, Pre: pre}
+				if len(pre) > 0 {
+					Col.Class("after-prior-calls", 1)
+				}
 				c01Record(c, ft, "random")
 				return c
 			}, oracleC01)
